@@ -2,6 +2,7 @@ package main
 
 import (
 	"fmt"
+	"strings"
 	"go/types"
 	"math/big"
 
@@ -17,6 +18,7 @@ type State struct {
 	cells map[string]Value
 	lenv  map[ssa.Value]Value // instances of values defined inside an unrolled loop
 	dead  bool
+	fidx  []int // indices of facts created along the paths leading to this state
 }
 
 func (s *State) clone() *State {
@@ -30,6 +32,7 @@ func (s *State) clone() *State {
 	for k, v := range s.lenv {
 		n.lenv[k] = v
 	}
+	n.fidx = append([]int(nil), s.fidx...)
 	return n
 }
 
@@ -39,6 +42,7 @@ type epochMerge struct {
 }
 
 type Region struct {
+	Own        *Term // extent used for disjointness from later allocations (capacity); nil = Size
 	Base, Size *Term
 	What       string
 	Writable   bool
@@ -69,6 +73,11 @@ type VC struct {
 	counters map[string]int
 	factSeen map[*Term]bool
 	restOf   *SplitSpec
+	smallHints []*Term
+	cur       *State
+	baseFacts []int
+	factIndex map[*Term]int
+	ghostParent map[int]int
 	modelTerms []modelTerm
 }
 
@@ -87,6 +96,7 @@ type Obligation struct {
 	Hyps   []*Term
 	Goal   *Term
 	NFacts int
+	FIdx   []int
 	vc     *VC
 	Res    SolveResult
 	Cover  bool // expect sat (reachability cover)
@@ -98,11 +108,23 @@ func (vc *VC) note(format string, args ...interface{}) {
 }
 
 func (vc *VC) fact(t *Term) {
-	if t.IsTrue() || t.bound || vc.factSeen[t] {
+	if t.IsTrue() || t.bound {
 		return
 	}
+	if vc.factSeen[t] {
+		if i, ok := vc.factIndex[t]; ok && vc.cur != nil {
+			vc.cur.fidx = append(vc.cur.fidx, i)
+		}
+		return
+	}
+	vc.factIndex[t] = len(vc.facts)
 	vc.factSeen[t] = true
 	vc.facts = append(vc.facts, t)
+	if vc.cur != nil {
+		vc.cur.fidx = append(vc.cur.fidx, len(vc.facts)-1)
+	} else {
+		vc.baseFacts = append(vc.baseFacts, len(vc.facts)-1)
+	}
 }
 
 func (vc *VC) newEpoch() int {
@@ -120,6 +142,19 @@ func (vc *VC) heapSort(key string) Sort {
 // epochVar is the content of heap class key in a state that has not written it
 // since its epoch began.
 func (vc *VC) epochVar(epoch int, key string) *Term {
+	if strings.HasPrefix(key, "ghost:") {
+		// ghost classes are not affected by havoc: resolve through to the original epoch
+		for {
+			if _, merged := vc.epochs[epoch]; merged {
+				break
+			}
+			p, ok := vc.ghostParent[epoch]
+			if !ok {
+				break
+			}
+			epoch = p
+		}
+	}
 	if m, ok := vc.epochs[epoch]; ok {
 		a := vc.epochVar(m.e1, key)
 		b := vc.epochVar(m.e2, key)
@@ -138,8 +173,17 @@ func (vc *VC) heapGet(st *State, key string) *Term {
 func (vc *VC) heapSet(st *State, key string, t *Term) { st.heap[key] = t }
 
 func (vc *VC) havocAll(st *State, why string) {
-	st.heap = map[string]*Term{}
+	keep := map[string]*Term{}
+	for k, v := range st.heap {
+		if strings.HasPrefix(k, "ghost:") {
+			keep[k] = v
+		}
+	}
+	// ghost classes never written so far keep their epoch value as well
+	oldEpoch := st.epoch
+	st.heap = keep
 	st.epoch = vc.newEpoch()
+	vc.ghostParent[st.epoch] = oldEpoch
 	vc.note("havoc of all heap classes: %s", why)
 }
 
@@ -320,6 +364,7 @@ func (vc *VC) mergeStates(in []*State) *State {
 				n.lenv[k] = bv
 			}
 		}
+		n.fidx = append(append([]int(nil), acc.fidx...), s.fidx...)
 		acc = n
 	}
 	return acc
@@ -397,7 +442,7 @@ func (vc *VC) sliceInv(v VSlice, esize int64) {
 		B.Le(B.Add(v.Ptr, B.Mul(B.Int(esize), v.Cap)), B.Big(maxAddr)),
 		B.Implies(B.Gt(v.Cap, B.Int(0)), B.Gt(v.Ptr, B.Int(0)))))
 	if esize > 0 {
-		vc.regions = append(vc.regions, Region{Base: v.Ptr, Size: B.Mul(B.Int(esize), v.Len), What: "slice", Writable: true})
+		vc.regions = append(vc.regions, Region{Base: v.Ptr, Size: B.Mul(B.Int(esize), v.Len), Own: B.Mul(B.Int(esize), v.Cap), What: "slice", Writable: true})
 	}
 }
 
@@ -438,12 +483,14 @@ func (vc *VC) writeM(st *State, addr *Term, size int64, v *Term) {
 		bv := v
 		M = B.Store(M, addr, bv)
 	} else {
-		// unsigned view of v
-		u := v
+		// unsigned view of v (v is in the range of its Go type by construction)
 		full := pow2(uint(size * 8))
-		u = B.Mod(u, B.Big(full))
+		u := B.Ite(B.Lt(v, B.Int(0)), B.Add(v, B.Big(full)), v)
 		for i := int64(0); i < size; i++ {
-			by := B.Mod(B.Div(u, B.Big(pow2(uint(8*i)))), B.Int(256))
+			by := B.Div(u, B.Big(pow2(uint(8*i))))
+			if i < size-1 {
+				by = B.Mod(by, B.Int(256))
+			}
 			M = B.Store(M, B.Add(addr, B.Int(i)), by)
 		}
 	}
@@ -499,10 +546,7 @@ func (vc *VC) storeLeaf(st *State, addr *Term, key string, lf Leaf, v *Term) {
 			return
 		}
 		if lf.Size == 1 {
-			_, signed, _ := intInfo(lf.Typ)
-			if signed {
-				v = B.Mod(v, B.Int(256))
-			}
+			v = B.Ite(B.Lt(v, B.Int(0)), B.Add(v, B.Int(256)), v)
 		}
 		vc.writeM(st, addr, lf.Size, v)
 		return
@@ -844,12 +888,18 @@ func (vc *VC) cellStore(st *State, p VPtr, t types.Type, v Value) {
 			u = B.Ite(u, B.Int(1), B.Int(0))
 		}
 		a := arr.T
+		if u.sort == SInt {
+			u = B.Ite(B.Lt(u, B.Int(0)), B.Add(u, B.Big(pow2(uint(sz*8)))), u)
+		}
 		if sz == 1 {
-			a = B.Store(a, off, B.Mod(u, B.Int(256)))
+			a = B.Store(a, off, u)
 		} else {
-			u = B.Mod(u, B.Big(pow2(uint(sz*8))))
 			for i := int64(0); i < sz; i++ {
-				a = B.Store(a, B.Add(off, B.Int(i)), B.Mod(B.Div(u, B.Big(pow2(uint(8*i)))), B.Int(256)))
+				by := B.Div(u, B.Big(pow2(uint(8*i))))
+				if i < sz-1 {
+					by = B.Mod(by, B.Int(256))
+				}
+				a = B.Store(a, B.Add(off, B.Int(i)), by)
 			}
 		}
 		st.cells[c.ID+"#"] = VT{a}
